@@ -269,23 +269,21 @@ Lemma window_okb_iff lay t : window_okb lay t = true <-> window_ok lay t.
 Proof.
   unfold window_okb, window_ok. rewrite andb_true_iff. rewrite (validb_iff t).
   destruct lay as [|c r]; [rewrite Z.leb_le; tauto|].
-  rewrite andb_true_iff, orb_true_iff, Z.eqb_eq, !Z.leb_le. tauto.
+  rewrite andb_true_iff, !Z.leb_le. tauto.
 Qed.
 
 Lemma window_wf lay t w b ex :
   window_ok lay t -> Forall (fun '(a, b) => a <= b) ex ->
-  F.wf_query (window_query lay t w b ex) /\ F.lookback_ok lay (window_query lay t w b ex) /\
-  window_overflows lay t = false.
+  F.wf_query (window_query lay t w b ex) /\ window_overflows lay t = false.
 Proof.
   intros [Vt Hw] Hex. unfold window_query, window, window_overflows.
   destruct lay as [|c r].
-  - unfold F.mkq. cbn [fst snd]. split; [|split; [exact I|reflexivity]].
+  - unfold F.mkq. cbn [fst snd]. split; [|reflexivity].
     unfold F.wf_query. cbn [F.qstart F.qend F.excl]. unfold valid, dt_max. split; [lia|]. split; [lia|exact Hex].
   - set (lay := c :: r) in *. assert (HP : 0 < F.lookback lay) by (apply lookback_pos; discriminate).
     destruct Hw as [H2 Hmax]. unfold valid in Vt. unfold F.mkq. cbn [fst snd].
-    split; [|split].
+    split.
     + unfold F.wf_query. cbn [F.qstart F.qend F.excl]. unfold valid. split; [lia|]. split; [lia|exact Hex].
-    + unfold F.lookback_ok, lay. cbn [F.qstart]. fold lay. lia.
     + apply orb_false_iff. split; [apply Z.ltb_ge; lia|apply Z.ltb_ge; lia].
 Qed.
 
@@ -303,8 +301,7 @@ Lemma find_model_unsorted lay fs q :
   match find_unsorted lay fs q with F.Ok l => F.Ok (F.sort_key l) | F.Err e => F.Err e end.
 Proof.
   unfold F.find_model, F.find_gen, find_unsorted.
-  destruct (F.qend q - 1 <? F.qstart q); [reflexivity|].
-  destruct (F.dir_start lay (F.qstart q) <? 0); reflexivity.
+  destruct (F.qend q - 1 <? F.qstart q); reflexivity.
 Qed.
 
 (* the files tree_search chooses from are exactly, and in the same order, those of find(start, end, sort=False) *)
@@ -330,7 +327,6 @@ Proof.
   rewrite find_model_unsorted, Hf.
   unfold find_unsorted in Hf. unfold tree_search. rewrite Hov.
   destruct (F.qend (window_query lay t w b ex) - 1 <? F.qstart (window_query lay t w b ex)); [discriminate|].
-  destruct (F.dir_start lay (F.qstart (window_query lay t w b ex)) <? 0); [discriminate|].
   inversion Hf. split; [apply filter_indexed_snd|]. split; reflexivity.
 Qed.
 
@@ -342,16 +338,13 @@ Theorem closest_end_to_end_thm lay fs w b ex t :
             FirstSpec F.t0 F.t1 (tcand lay t w b ex) t fs r.
 Proof.
   intros (HG & HW & HS & HV) Hwin Hex.
-  destruct (window_wf lay t w b ex Hwin Hex) as (Hq & Hlb & Hov).
+  destruct (window_wf lay t w b ex Hwin Hex) as (Hq & Hov).
   set (q := window_query lay t w b ex) in *.
   exists (gsearch F.t0 F.t1 (F.found false lay q) t fs). split.
   - unfold tree_search. fold q. rewrite Hov.
     pose proof Hq as (Vq & [Hse Hemax] & _).
     replace (F.qend q - 1 <? F.qstart q) with false by lia.
-    assert (Hds : (F.dir_start lay (F.qstart q) <? 0) = false).
-    { unfold F.dir_start. destruct lay as [|c rest]; [unfold valid in Vq; lia|].
-      unfold F.lookback_ok in Hlb. unfold valid in Vq. destruct (F.qstart q =? 0) eqn:E0; lia. }
-    rewrite Hds. reflexivity.
+    reflexivity.
   - apply (first_spec_ext F.t0 F.t1 (tcand lay t w b ex) (F.found false lay q)).
     + intros f Hin. unfold tcand. fold q. symmetry. rewrite Forall_forall in HW, HS, HV.
       apply FP.found_selected; auto.
